@@ -17,6 +17,7 @@ int __real_pthread_mutex_destroy(pthread_mutex_t *);
 int __real_pthread_mutex_lock(pthread_mutex_t *);
 int __real_pthread_mutex_unlock(pthread_mutex_t *);
 int __real_pthread_mutex_trylock(pthread_mutex_t *);
+pthread_t __real_pthread_self(void);
 }
 
 namespace sim {
@@ -57,6 +58,12 @@ int __wrap_pthread_create(pthread_t *th, const pthread_attr_t *attr, void *(*fn)
   event(K_CREATE, id, 0);
   point(K_CREATE, id);
   return 0;
+}
+
+// all tasks share one OS thread: code that asks who it is must see its task, not the OS thread
+pthread_t __wrap_pthread_self(void) {
+  if (!active()) return __real_pthread_self();
+  return (pthread_t)(self() + 1);
 }
 
 int __wrap_pthread_join(pthread_t th, void **ret) {
